@@ -742,6 +742,16 @@ def replay_m(path):
     d = json.load(open(path))
     if d.get('kind') == 'eval_impl':
         return replay_eval_impl(path)
+    if d.get('kind') == 'binop':
+        err = build_tool('folding')
+        if err:
+            print(err)
+            return False
+        p = subprocess.run([os.path.join(BUILD, 'native', 'debug', 'folding')], stdout=subprocess.PIPE, stderr=subprocess.PIPE, text=True, timeout=300)
+        ops = {s['op'] for s in d['scenarios']}
+        bad = [s for s in (json.loads(l) for l in p.stdout.split('\n') if l.strip().startswith('{')) if s['op'] in ops and not s['ok']]
+        print(json.dumps(bad, indent=1))
+        return bool(bad)
     if d.get('kind') == 'autoreload':
         err = build_tool('reload')
         if err:
@@ -1114,5 +1124,144 @@ def run_lookup_order(prop, tier, seed):
         ev['problems'].append('engine M: native scenario %s misbehaves (%s) although the lookup order check holds' % (failing[0]['scenario'], failing[0]['detail'][:200]))
     log('[%s] engine M (Context::load MIR): lookup_order=%s; %d native scenarios, %d misbehaving' % (prop, verdict, len(scen), len(failing)))
     ev['coverage'] = dict(queries=1, results=[r], native_scenarios=len(scen), native_scenarios_failing=len(failing), functions=['Context::load'])
+    ev['wall_s'] = round(time.time() - t0, 1)
+    return ev
+
+
+# ---------------------------------------------------------------------------------------------
+# eval_impl (C04): every binary-operator arm of the interpreter computes its result with the same ops::
+# function the constant folder uses - on EVERY path from the arm's entry to the next instruction fetch
+# ---------------------------------------------------------------------------------------------
+BINOPS = {'Add': 'add', 'Sub': 'sub', 'Mul': 'mul', 'Div': 'div', 'IntDiv': 'int_div', 'Rem': 'rem', 'Pow': 'pow',
+          'StringConcat': 'string_concat', 'In': 'contains'}
+MIR_FEATURES = {'multi_template', 'macros', 'fuel', 'loop_controls', 'builtins', 'debug', 'serde', 'deserialization', 'adjacent_loop_items', 'std_collections'}
+
+
+def instruction_variants(repo):
+    src = open(os.path.join(repo, 'minijinja', 'src', 'compiler', 'instructions.rs'), encoding='utf-8').read()
+    m = re.search(r'pub enum Instruction<[^>]*> \{(.*?)\n\}', src, re.S)
+    if not m:
+        raise MirError('enum Instruction not found')
+    out = []
+    pending_cfg = None
+    for line in m.group(1).split('\n'):
+        t = line.strip()
+        if not t or t.startswith('//'):
+            continue
+        c = re.match(r'#\[cfg\(feature = "(\w+)"\)\]', t)
+        if c:
+            pending_cfg = c.group(1)
+            continue
+        if t.startswith('#['):
+            continue
+        v = re.match(r'(\w+)\b', t)
+        if v and t[0].isupper():
+            if pending_cfg is None or pending_cfg in MIR_FEATURES:
+                out.append(v.group(1))
+            pending_cfg = None
+    return out
+
+
+def check_binop_arms(fn, variants):
+    adj, preds = cfg(fn)
+    fetch = [b for b, blk in fn['blocks'].items() if not blk['cleanup'] and re.search(r"Instructions::<[^>]*>::get\(", blk['term'])]
+    dispatch = [b for b, blk in fn['blocks'].items() if not blk['cleanup'] and blk['term'].startswith('switchInt') and blk['term'].count('bb') >= 40]
+    if len(fetch) != 1 or len(dispatch) != 1:
+        return [dict(op='*', verdict='unknown', conflict='fetch/dispatch blocks of the interpreter loop not identified')]
+    F, X = fetch[0], dispatch[0]
+    targets = dict(re.findall(r'(\d+): (bb\d+)', fn['blocks'][X]['term']))
+    out = []
+    for vname, opfn in BINOPS.items():
+        if vname not in variants or str(variants.index(vname)) not in targets:
+            out.append(dict(op=vname, verdict='unknown', conflict='no dispatch target for Instruction::%s' % vname))
+            continue
+        entry = targets[str(variants.index(vname))]
+        s_ = z3.Solver()
+        s_.set('timeout', 30000)
+        D = {}
+
+        def d(b):
+            if b not in D:
+                D[b] = z3.Int('U_%s_%s' % (vname, b))
+            return D[b]
+        s_.add(d(entry) == 0)
+        seen, todo = {entry}, [entry]
+        n = calls = reach_fetch = 0
+        while todo:
+            b = todo.pop()
+            blk = fn['blocks'][b]
+            if any(re.match(r'_0 = ', st) for st in blk['stmts']):
+                continue
+            _, callee = call_of(blk['term'])
+            is_op = bool(callee and re.match(r'(?:value::)?(?:ops::)?%s\(' % opfn, callee))
+            calls += is_op
+            for label, tgt in adj[b]:
+                if fn['blocks'][tgt]['term'] == 'return;':
+                    continue
+                eff = 1 if (label == 'ok' and is_op) else 0
+                if tgt == F:
+                    s_.add(d(b) + eff == 1)
+                    reach_fetch += 1
+                    n += 1
+                    continue
+                s_.add(d(tgt) == d(b) + eff)
+                n += 1
+                if tgt not in seen:
+                    seen.add(tgt)
+                    todo.append(tgt)
+        t0 = time.time()
+        r = s_.check()
+        dt = time.time() - t0
+        res = dict(op=vname, ops_fn='ops::' + opfn, entry=entry, blocks=len(seen), edges=n, ops_calls=calls, z3_s=round(dt, 3))
+        if reach_fetch == 0:
+            res.update(verdict='unknown', conflict='the arm never returns to the instruction fetch')
+        elif r == z3.sat:
+            res.update(verdict='sat')
+        elif r == z3.unsat:
+            res.update(verdict='unsat', conflict='a path through the %s arm reaches the next instruction without exactly one call of ops::%s (%d call sites)' % (vname, opfn, calls))
+        else:
+            res.update(verdict=str(r))
+        out.append(res)
+    return out
+
+
+def run_binops(prop, tier, seed):
+    t0 = time.time()
+    ev = dict(engine='M', violations=[], known_hits=[], problems=[], coverage={})
+    try:
+        mir = dump_mir(REPO, os.path.join(BUILD, 'mir'))
+        text = function_text(mir, EVAL_IMPL)
+        if text is None:
+            raise MirError('eval_impl not found in the MIR dump')
+        results = check_binop_arms(parse_function(text), instruction_variants(REPO))
+    except MirError as e:
+        ev['problems'].append('engine M: %s' % e)
+        return ev
+    err = build_tool('folding')
+    if err:
+        ev['problems'].append('engine M: native scenario tool did not build: ' + err[-300:])
+        return ev
+    p = subprocess.run([os.path.join(BUILD, 'native', 'debug', 'folding')], stdout=subprocess.PIPE, stderr=subprocess.PIPE, text=True, timeout=300)
+    scen = {s['op']: s for s in (json.loads(l) for l in p.stdout.split('\n') if l.strip().startswith('{'))}
+    for r in results:
+        if r['verdict'] == 'sat':
+            continue
+        if r['verdict'] != 'unsat':
+            ev['problems'].append('engine M: binop arm %s: %s %s' % (r['op'], r['verdict'], r.get('conflict', '')))
+            continue
+        s = scen.get(r['op'])
+        if s and not s['ok']:
+            rp = os.path.join(nativelib.replay_dir(), '%s-M-binop-%s.json' % (prop, r['op']))
+            json.dump(dict(engine='M', kind='binop', property=prop, mir_finding=r, scenarios=[s], how='bin/check %s --replay %s' % (prop, rp)), open(rp, 'w'), indent=1)
+            ev['violations'].append(dict(replay=rp, failed=[dict(desc='eval_impl %s arm: %s; literals vs variables: %s' % (r['op'], r['conflict'], s['detail'][:220]),
+                                                                 loc='minijinja/src/vm/mod.rs eval_impl (MIR)')]))
+        else:
+            ev['problems'].append('engine M: binop arm %s: %s, but literal and variable forms agree on the whole operand grid' % (r['op'], r['conflict']))
+    bad = [s for s in scen.values() if not s['ok']]
+    if bad and all(r['verdict'] == 'sat' for r in results):
+        ev['problems'].append('engine M: literal and variable forms of `%s` disagree (%s) although every arm calls its ops function' % (bad[0]['symbol'], bad[0]['detail'][:200]))
+    log('[%s] engine M (eval_impl binop arms): %s; native grid: %d operators, %d disagreeing' % (
+        prop, ' '.join('%s=%s' % (r['op'], r['verdict']) for r in results), len(scen), len(bad)))
+    ev['coverage'] = dict(queries=len(results), results=results, native_scenarios=len(scen), native_scenarios_failing=len(bad), function='Executor::eval_impl', check='binop_uses_ops')
     ev['wall_s'] = round(time.time() - t0, 1)
     return ev
